@@ -184,16 +184,18 @@ def HState.handleIncoming (s : HState) (tid : InTid) (body : Body) (src : Addr) 
   | .resp r => s.handleResponse tid r src now
   | .err _ _ => (s, [])
 
+/-- the rest of `handle_start_lookup` once `TableLookup::new` returned `r` -/
+def HState.afterNew (s : HState) (r : Lookup × LEnv × List Effect) (now : Nat) : HState × List HEffect × Nat :=
+  let stream := s.nextStream
+  let s := { s.withEnv r.2.1 with nextAid := s.nextAid + 1, nextStream := stream + 1 }
+  if r.1.completedNow then
+    let q := r.1.recvFinished (s.env now) s.announcePort
+    (s.withEnv q.2.1, liftEffects (r.2.2 ++ q.2.2), stream)
+  else ({ s with lookups := s.lookups ++ [r.1] }, liftEffects r.2.2, stream)
+
 /-- `handle_start_lookup` -/
 def HState.startLookup (s : HState) (target : Bytes) (announce : Bool) (now : Nat) : HState × List HEffect × Nat :=
-  let aid := s.nextAid
-  let stream := s.nextStream
-  let (l, env, effs) := Lookup.new aid stream s.selfId s.v6 target announce (s.env now)
-  let s := { s.withEnv env with nextAid := aid + 1, nextStream := stream + 1 }
-  if l.completedNow then
-    let (_, env, e2) := l.recvFinished (s.env now) s.announcePort
-    (s.withEnv env, liftEffects (effs ++ e2), stream)
-  else ({ s with lookups := s.lookups ++ [l] }, liftEffects effs, stream)
+  s.afterNew (Lookup.new s.nextAid s.nextStream s.selfId s.v6 target announce (s.env now)) now
 
 /-- `TableRefresh::continue_refresh` -/
 def HState.refresh (s : HState) (now : Nat) : HState × List HEffect :=
